@@ -105,7 +105,10 @@ def check(v, events):
                                   dict(wit, id=i, tx=info[i], last_place=place.get(i)))
                     else:
                         trans.add((place.get(i), st))
-                        if st == "removed:InternalError" and place.get(i) == "parked":
+                        if st == "removed:InternalError" and place.get(i) == "parked" and op["op"] != "conc_round":
+                            # (sequential tier only: there the place recorded before this single operation is exact; at the end of a
+                            # concurrent round a transaction last seen parked may have been promoted and then have failed a demotion
+                            # into a full parked queue, which is a reported removal, not a loss)
                             # a parked transaction only leaves the pool by promotion, staleness, expiry or invalidation; an
                             # "internal error" removal means a promotion failed, i.e. the mempool picked a transaction its own
                             # ready set could not take
